@@ -24,6 +24,13 @@ static std::vector<NetDef> structureNets(int n, int st) {
   // cell -1 = fixed pin at absolute position = offset
   std::vector<NetDef> v;
   auto c = [&](int i) { return i % n; };
+  if (st == 8) {
+    // long chain of two-pin nets between fixed pins at 0 and 1000 (conjugate gradients need many iterations here)
+    v.push_back({{0, -1}, {0, 0}});
+    for (int i = 0; i + 1 < n; ++i) v.push_back({{i, i + 1}, {0, 0}});
+    v.push_back({{n - 1, -1}, {0, 1000}});
+    return v;
+  }
   switch (st) {
     case 0: v = {{{c(0), c(1)}, {0, 0}}, {{c(1), -1}, {0.5f, 10}}}; break;
     case 1: v = {{{c(0), -1}, {0, -4}}, {{c(0), c(1)}, {1, -1}}, {{c(1), -1}, {0, 12}}}; break;
@@ -53,9 +60,12 @@ static NetModel buildModel(const Inst &in, float scale, std::vector<float> *weig
   NetModel m(in.n);
   auto nets = structureNets(in.n, in.structure);
   int wt = in.wt;
+  int k = 0;
   for (auto &nd : nets) {
     float w = WEIGHTS[wt % 6] * scale;
     wt /= 6;
+    if (in.structure == 8) { w = WEIGHTS[(k * 5 + in.wt) % 6] * (k % 4 == 1 ? 4.0f : 1.0f) * scale; }  // spread 0.25 .. 12
+    ++k;
     if (weightsOut) weightsOut->push_back(w);
     m.addNet(nd.cells, nd.offs, w);
   }
@@ -111,7 +121,7 @@ static vf::Verdicts eval(const Inst &in, vf::Ctx &ctx) {
   std::vector<float> pl(in.n), target(in.n), strength(in.n);
   for (int i = 0; i < in.n; ++i) {
     pl[i] = in.placement == 0 ? 3.0f * i + 1.0f : (in.placement == 1 ? 5.0f : 20.0f - 7.0f * i);
-    target[i] = 2.0f + 4.0f * ((i * 3) % 5);
+    target[i] = in.structure == 8 ? 25.0f * ((i * 7) % 40) : 2.0f + 4.0f * ((i * 3) % 5);
     strength[i] = in.penalty == 0 ? 0.0f : (in.penalty == 1 ? 0.5f : 0.125f * (i + 1));
   }
   std::vector<float> weights;
@@ -119,7 +129,7 @@ static vf::Verdicts eval(const Inst &in, vf::Ctx &ctx) {
   std::vector<float> r0Star = base.solveStar(params);
   std::vector<float> r0 = base.solve(pl, params);
   std::vector<float> r0Pen = base.solveWithPenalty(pl, target, strength, params);
-  float span = 40.0f;
+  float span = in.structure == 8 ? 1000.0f : 40.0f;
   for (int k = 0; k < 8; ++k) {
     float sc = SCALES[k];
     NetModel m = buildModel(in, sc);
@@ -179,9 +189,9 @@ int main(int argc, char **argv) {
       "NetModel over 2..4 movable cells x 8 net structures (two-pin chains, fixed pins, 3- and 4-pin nets, repeated cells, offsets) x every weight tuple in "
       "{0.25,0.5,1,1.5,2.5,3}^nets (quick: first three nets vary) x 4 net models x 3 penalty variants x 3 input placements (spread, clumped, reversed): solveStar / solve / "
       "solveWithPenalty under a common factor {1/4,1/2,2,8,2^-24,2^20} on all weights and penalty strengths must return bit-identical vectors, under {2.5,7} the same within 1% of the span when "
-      "every cell is anchored; the initial star solution must satisfy the normal equations of the documented weighted least-squares model (checked in double); plus "
+      "every cell is anchored; the initial star solution must satisfy the normal equations of the documented weighted least-squares model (checked in double); plus chains of 16/24/40 cells between two fixed pins with weights spread over 0.25..12; plus "
       "Circuit::placeGlobal on circuits differing by a common factor 4, without and with a callback that resizes the cells at the first upper-bound step; non-trivial = a fractional weight is present";
-  c.bounds = "n<=4, <=4 nets";
+  c.bounds = "n<=4, <=4 nets; chains of 16, 24, 40 cells";
   c.enumerate = [=](const std::function<void(const Inst &)> &f) {
     for (int n = 2; n <= 4; ++n)
       for (int st = 0; st < 8; ++st) {
@@ -196,6 +206,12 @@ int main(int argc, char **argv) {
                 f(Inst{n, st, wt, model, pen, plc, 0});
               }
       }
+    // long chains (16, 24, 40 cells): six weight patterns x 4 models x 3 penalties x 3 placements
+    for (int n : {16, 24, 40})
+      for (int wt = 0; wt < 6; ++wt)
+        for (int model = 0; model < 4; ++model)
+          for (int pen = 0; pen < 3; ++pen)
+            for (int plc = 0; plc < 3; ++plc) f(Inst{n, 8, wt, model, pen, plc, 0});
     for (int st = 0; st < 4; ++st)
       for (int wt = 0; wt < 36; ++wt)
         for (int model = 0; model < 4; ++model)
